@@ -39,11 +39,58 @@ class Case:
 
 
 class Toolchain:
-    def __init__(self, bindir):
+    """bindir: the debug-assertion build (its runtime is linked into every executable under test);
+    fastdir (optional): the build without debug assertions used as compiler host for bulk compilation."""
+
+    def __init__(self, bindir, fastdir=None):
         self.bindir = bindir
+        self.fastdir = fastdir
         self.dora = os.path.join(bindir, "dora")
 
     def compile(self, src, out, backend, gc=None, extra=(), timeout=900, env=None):
+        if self.fastdir and not extra:
+            return self.compile_split(src, out, backend, gc, timeout, env)
+        return self.compile_direct(src, out, backend, gc, extra, timeout, env)
+
+    def compile_split(self, src, out, backend, gc, timeout, env):
+        """fast compiler -> assembly; gcc assembles; linked against the debug-assertion runtime exactly like
+        driver/compile.rs::link_object_unix does."""
+        e = dict(os.environ)
+        e["RUST_BACKTRACE"] = "0"
+        e["DORA_FLAGS"] = "--gc-worker 1"
+        if env:
+            e.update(env)
+        cmd = [os.path.join(self.fastdir, "dora"), "compile", "-S", src, "-o", out + ".asm"]
+        if backend == "cannon":
+            cmd.append("--cannon")
+        if gc:
+            cmd.append("--gc=%s" % gc)
+        try:
+            p = subprocess.run(cmd, stdout=subprocess.PIPE, stderr=subprocess.PIPE, timeout=timeout, env=e, cwd=os.path.dirname(src))
+        except subprocess.TimeoutExpired:
+            return False, "compile timeout"
+        err = p.stderr.decode("utf-8", "replace") + p.stdout.decode("utf-8", "replace")
+        if p.returncode != 0:
+            return False, err
+        asm = out + ".s"  # the driver replaces the extension of the -o path
+        if not os.path.exists(asm):
+            asm = os.path.splitext(out + ".asm")[0] + ".s"
+        obj = out + ".o"
+        p = subprocess.run(["gcc", "-c", asm, "-o", obj], stdout=subprocess.PIPE, stderr=subprocess.PIPE)
+        if p.returncode != 0:
+            return False, "assembling failed: " + p.stderr.decode("utf-8", "replace")[-2000:]
+        p = subprocess.run(["gcc", obj, os.path.join(self.bindir, "libdora_startup.a"), os.path.join(self.bindir, "libdora_runtime.a"),
+                            "-Wl,-x", "-lpthread", "-ldl", "-lm", "-o", out], stdout=subprocess.PIPE, stderr=subprocess.PIPE)
+        for f in (asm, obj):
+            try:
+                os.remove(f)
+            except OSError:
+                pass
+        if p.returncode != 0:
+            return False, "linking failed: " + p.stderr.decode("utf-8", "replace")[-2000:]
+        return True, err
+
+    def compile_direct(self, src, out, backend, gc=None, extra=(), timeout=900, env=None):
         cmd = [self.dora, "compile", src, "-o", out]
         if backend == "cannon":
             cmd.append("--cannon")
